@@ -123,6 +123,33 @@ def cage_positions(rng, n):
     return out
 
 
+def sparse_endgames(rng, n):
+    """K + two or three pieces against a bare king or king + one piece: long QUIET mates (king approach), searched deep"""
+    out = []
+    while len(out) < n:
+        board = {}
+
+        def put(pc):
+            while True:
+                s_ = rng.randrange(64)
+                if s_ not in board:
+                    board[s_] = pc
+                    return
+        put("k")
+        put("K")
+        for pc in rng.choice(["RB", "RN", "RR", "QR", "QB", "BB", "BN", "RRr", "RBr", "Qr", "RBn", "RRb", "QN", "RBb"]):
+            put(pc)
+        f = posgen.board_to_fen(board, "w", "", None, 0, 1)
+        if rng.random() < 0.5:
+            f = posgen.mirror_fen(f)
+        out.append(f)
+    return out
+
+
+# positions on which an earlier (seeded) version of the search announced a mate that does not exist; they run first
+CORPUS_FOUND = ["8/8/4R3/7B/K7/8/1k6/8 w - - 0 1", "4k3/8/1R6/R5K1/8/8/1r6/8 w - - 0 1"]
+
+
 def run(ctx):
     gen.gen(["consts"])
     ok, failed, out = ctx.prove("Props/Properties_C08")
@@ -224,6 +251,16 @@ def run(ctx):
         info[f] = {"m1": False, "l1": False, "mating": [], "legal": ["?"]}
         sessions.append(["go %s | | depth %d nodes 150000" % (f, d) for d in (3, 4)])
         meta.append([(f, d, "cage") for d in (3, 4)])
+    # sparse endgames searched DEEP (null-move / reduction unsoundness needs depth): claims up to mate 4 (5 in thorough) are judged
+    deep = posgen.filter_valid(model, CORPUS_FOUND + sparse_endgames(rng, 300 if q else 7000))
+    rc, dl, err = run_lines(model, ["legal " + f for f in deep], shards=NPROC)
+    deep = [f for f, l in zip(deep, dl) if (l or "0").split()[0] != "0"]
+    ctx.notes["sparse_endgames_searched_deep"] = len(deep)
+    for f in deep:
+        info[f] = {"m1": False, "l1": False, "mating": [], "legal": ["?"]}
+        d = 12 if f in CORPUS_FOUND else rng.choice([9, 10, 11, 12])
+        sessions.append(["go %s | | depth %d" % (f, d)])
+        meta.append([(f, d, "deep")])
     for f in CORPUS_OTHER:
         if f in info and info[f]["legal"]:
             sessions.append(["go %s | | depth %d" % (f, d) for d in (1, 2, 3, 4)])
@@ -261,7 +298,23 @@ def run(ctx):
     # (3) truth of the announcements, by the extracted exhaustive solver
     YMAX = 2 if q else 3
     judged = [(c, "mate %d %s" % (max(c[1], 1), c[0])) for c in claims if c[1] <= YMAX and (c[1] <= 2 or sum(ch.isalpha() for ch in c[0].split()[0]) <= 7)]
-    rc, jr, err = run_lines(model, [j[1] for j in judged], shards=NPROC, timeout=1700)
+    # longer claims on sparse positions (<= 5 men): the memoised solver (same recursion as Rules.forced_mate_within over the extracted
+    # legal_moves / make_move / checkmate); quick judges mate 3..4 within a budget, thorough all of mate 3..5
+    deepset = set(deep)
+    YDEEP = 4 if q else 5
+    longc = [c for c in claims if YMAX < c[1] <= YDEEP and c[0] in deepset and sum(ch.isalpha() for ch in c[0].split()[0]) <= 5]
+    longc.sort(key=lambda c: (c[0] not in CORPUS_FOUND, c[1]))
+    if q:
+        longc = longc[:20]
+    judged += [(c, "matem %d %s" % (c[1], c[0])) for c in longc]
+    ctx.notes["long_claims_judged_by_memo_solver"] = len(longc)
+    rc, jr, err = run_lines(model, [j[1] for j in judged], shards=NPROC, timeout=3000)
+    # the memoised solver is cross-checked against the extracted Rules.forced_mate_within on every short claim
+    short = [(c, cmd) for c, cmd in judged if cmd.startswith("mate ")]
+    rc, xr, err = run_lines(model, [cmd.replace("mate ", "matem ", 1) for c, cmd in short], shards=NPROC, timeout=1700)
+    for (c, cmd), a, b in zip(short, [r for (cc, cm), r in zip(judged, jr) if cm.startswith("mate ")], xr):
+        if (a or "").split()[:2] != (b or "").split()[:2]:
+            raise BuildError("memoised mate solver disagrees with Rules.forced_mate_within on '%s': %s vs %s" % (cmd, a, b))
     ntrue = 0
     for (c, cmd), r in zip(judged, jr):
         fen, y, neg, lines, ln, txt = c
